@@ -271,12 +271,12 @@ C10CallbackCauses(n, r) ==
        (IF c.abs > 0 /\ t > logins[sid].at + c.abs THEN {"login-state-honoured-after-absolute-timeout"} ELSE {})
        \cup (IF c.idle > 0 /\ t > (IF Has(lastUse, sid) THEN lastUse[sid] ELSE logins[sid].at) + c.idle THEN {"login-state-honoured-after-idle-timeout"} ELSE {})
 
-\* a session inside both limits (with a second to spare) that nothing removed is not dropped
+\* a session inside both limits (with a second to spare) that nothing had removed when the request arrived (g0) is not dropped
 C10DropCauses(n, r) ==
   LET sid == Req(n).cookie
       c   == flt[r.f]
       rd  == SelectSeq(Ops(n, "GetTokenResponse"), LAMBDA x : x.e.sid = sid /\ Good(x))
-  IN IF ~(Req(n).kind = "app" /\ Has(logins, sid) /\ sid \in stored /\ sid \notin gone /\ Len(rd) > 0 /\ ~rd[1].e.res.ex
+  IN IF ~(Req(n).kind = "app" /\ Has(logins, sid) /\ sid \in stored /\ ~chk[n].g0 /\ Len(rd) > 0 /\ ~rd[1].e.res.ex
           /\ Has(lastUse, sid) /\ logins[sid].f = r.f) THEN {}
      ELSE LET t == rd[1].at IN
        IF (c.abs = 0 \/ t + 1 < logins[sid].at + c.abs) /\ (c.idle = 0 \/ t + 1 < lastUse[sid] + c.idle)
@@ -441,7 +441,7 @@ RespViol(n, r) ==
   \cup Tag("C03", "NoRelogin", C03RespCauses(n, r), n)
   \cup Tag("C10", "NotDroppedEarly", C10DropCauses(n, r), n)
   \cup (IF Cardinality(DOMAIN flt) > 1
-        THEN Tag("C18", "OwnTimeouts", C10RespCauses(n, r), n)
+        THEN Tag("C18", "OwnTimeouts", {c \o (IF \E g \in DOMAIN flt : g # r.f /\ flt[g].store = flt[r.f].store THEN "@shared-store" ELSE "@own-store") : c \in C10RespCauses(n, r) \cup C10DropCauses(n, r)}, n)
              \* with several filters, each filter's own header names, cookie name and end-session endpoint govern its answers
              \cup Tag("C18", "OwnSettings", C02RespCauses(n, r) \cup C05RespCauses(n, r) \cup C13RespCauses(n, r)
                                             \cup {c \in C09RespCauses(n, r) : c \in {"logout-answer-not-end-session-redirect", "logout-does-not-expire-cookie"}}, n)
@@ -568,7 +568,7 @@ Skip ==
 ReqEv ==
   /\ E.ev = "req"
   \* a check that shares any part of its lifetime with another check is marked as overlapped (ovl)
-  /\ chk' = Put([k \in DOMAIN chk |-> [chk[k] EXCEPT !.ovl = TRUE]], E.n, [req |-> E, evs |-> <<>>, ovl |-> DOMAIN chk # {}])
+  /\ chk' = Put([k \in DOMAIN chk |-> [chk[k] EXCEPT !.ovl = TRUE]], E.n, [req |-> E, evs |-> <<>>, ovl |-> DOMAIN chk # {}, g0 |-> E.cookie \in gone])
   /\ presented' = IF E.cookie = "none" THEN presented ELSE presented \cup {E.cookie}
   /\ UNCHANGED <<now, sc, flt, logins, consumed, dead, codes, idtok, rtl, latest, lastUse, stored, gone, bound, lastStored, attok, br, viol, drift, fired>>
 
